@@ -6,7 +6,8 @@ open MiciVerif MiciVerif.Constrained MiciVerif.Proto Matrix
 /-! Line-protocol driver for C04 (model executed over ℚ).
 
 `proj n c J M p`
-`solve kind n c A B d flow pos mom posPrev t ctol ptol dtol maxIters maxLs`
+`solve kind n c A B d flow pos mom posPrev t ctol ptol dtol maxIters maxLs fault`
+      fault = `none` | `c:i:thr` | `j:i:thr` (constraint / Jacobian raises ValueError where q[i] > thr)
       flow = `E:<M>` (Euclidean: Φqp = |t|·M⁻¹, Φpp = 1) or `D:<Φqp>|<Φpp>` (matrices as data)
 `step kind n c A B d M lB lg lk haus pos mom t nInner ctol ptol dtol maxIters maxLs revTol`
       neg_log_dens ℓ(q) = ½ qᵀ lB q + lg·q + ¼ lk Σ qᵢ⁴, constraints ½ qᵀA_k q + B_k·q + d_k
@@ -34,10 +35,30 @@ def parseKind? : String → Option SolverKind
 def reasonStr : Reason → String
   | .diverged => "diverged" | .fault => "fault" | .maxIters => "maxiters"
 
+/-- fault script: `none`, or `c:i:thr` / `j:i:thr` — the constraint (resp. Jacobian) function
+raises `ValueError` at every position with `q[i] > thr` -/
+structure FaultSpec where
+  inConstr : Bool
+  idx : Nat
+  thr : ℚ
+
+def parseFault? (s : String) : Option (Option FaultSpec) :=
+  if s = "none" then some none else
+  match s.splitOn ":" with
+  | [k, i, thr] => do
+    let inC ← (if k = "c" then some true else if k = "j" then some false else none)
+    some (some ⟨inC, ← i.toNat?, ← parseRat? thr⟩)
+  | _ => none
+
+def faults {n : Nat} (F : Option FaultSpec) (forConstr : Bool) (q : Vec ℚ n) : Bool :=
+  match F with
+  | none => false
+  | some f => f.inConstr == forConstr && (match q.toList[f.idx]? with | some x => decide (x > f.thr) | none => false)
+
 def mkOracles {n c : Nat} (Q : Quadrics ℚ n c)
-    (flowD : Vec ℚ n → ℚ → Except Fault (Mat ℚ n n × Mat ℚ n n)) : Oracles ℚ n c where
-  constr := fun q => .ok (Q.constr q)
-  jacob := fun q => .ok (Q.jacob q)
+    (flowD : Vec ℚ n → ℚ → Except Fault (Mat ℚ n n × Mat ℚ n n)) (F : Option FaultSpec := none) : Oracles ℚ n c where
+  constr := fun q => if faults F true q then .error .valueError else .ok (Q.constr q)
+  jacob := fun q => if faults F false q then .error .valueError else .ok (Q.jacob q)
   flowD := flowD
   inv := checkedInv
   normC := maxNorm
@@ -76,9 +97,9 @@ def doProj (n c : Nat) (J M p : String) : Option String := do
 
 def doSolve (kind : SolverKind) (n c : Nat) (a : List String) : Option String :=
   match a with
-  | [A, B, d, flow, pos, mom, posPrev, t, ctol, ptol, dtol, maxIters, maxLs] => do
+  | [A, B, d, flow, pos, mom, posPrev, t, ctol, ptol, dtol, maxIters, maxLs, fault] => do
     let Q : Quadrics ℚ n c := ⟨← toMats? c n n A, ← toMat? c n B, ← toVec? c d⟩
-    let O := mkOracles Q (← parseFlow? n flow)
+    let O := mkOracles Q (← parseFlow? n flow) (← parseFault? fault)
     let T : Tol ℚ := ⟨← parseRat? ctol, ← parseRat? ptol, ← parseRat? dtol⟩
     let r := solve kind O T (← maxIters.toNat?) (← maxLs.toNat?) (← parseRat? t)
       (← toVec? n pos) (← toVec? n mom) (← toVec? n posPrev)
